@@ -67,6 +67,7 @@ OnCall(m, e) ==
     EXCEPT !.call = [op |-> e.op, cr |-> e.cr, tx |-> 0, hs |-> 0, resp |-> FALSE, txAfterResp |-> FALSE,
                      benign |-> quiet, awaiting |-> FALSE, genuine |-> FALSE, everConnected |-> m.cur # 0, cancelled |-> FALSE,
                      connfail |-> FALSE,    \* a connect attempt of this call was refused / timed out
+                     fault |-> FALSE,       \* a fault of C08's list hit this call: failed connect, peer close / reset, error packet, garbage
                      lastk |-> 0,           \* key id under which the last data packet of this call was written
                      silent |-> TRUE,       \* nothing but silence from the network so far: no delivery, loss, close, refusal or cancellation
                      canSucceed |-> Ver = 2 \/ (e.op = "send" /\ (m.stored = "good" \/ m.hadGood))
@@ -78,15 +79,15 @@ OnConnOK(m, e) ==
              !.bad = IF e.c # Len(m.conns) + 1 THEN @ \cup {<<"harness", "connection ids are not consecutive">>} ELSE @,
              !.call = IF m.call.op = "none" THEN @ ELSE [@ EXCEPT !.everConnected = TRUE] ]
 
-OnConnFail(m, e) == IF m.call.op = "none" THEN m ELSE [m EXCEPT !.call.benign = FALSE, !.call.silent = FALSE, !.call.connfail = TRUE, !.devfault = TRUE]
+OnConnFail(m, e) == IF m.call.op = "none" THEN m ELSE [m EXCEPT !.call.benign = FALSE, !.call.silent = FALSE, !.call.connfail = TRUE, !.call.fault = TRUE, !.devfault = TRUE]
 
 OnClose(m, e) ==
   LET m1 == [m EXCEPT !.conns[e.c].cclosed = TRUE, !.cur = IF m.cur = e.c THEN 0 ELSE m.cur] IN
   IF m.mustNew = e.c THEN m1 ELSE m1
 
 OnPeerClose(m, e) ==
-  [ m EXCEPT !.conns[e.c].pclosed = TRUE,
-             !.call = IF m.call.op = "none" THEN @ ELSE [@ EXCEPT !.benign = FALSE, !.silent = FALSE] ]
+  [ m EXCEPT !.conns[e.c].pclosed = TRUE, !.devfault = TRUE,
+             !.call = IF m.call.op = "none" THEN @ ELSE [@ EXCEPT !.benign = FALSE, !.silent = FALSE, !.fault = TRUE] ]
 
 (* ---- a packet written by the client, as decoded by the device ---- *)
 OnTx(m, e) ==
@@ -165,8 +166,10 @@ OnDeliver(m, e) ==
                                    !.resp = @ \/ isResp,
                                    !.genuine = @ \/ (genHS /\ awaited),
                                    !.benign = @ /\ awaited /\ e.gen,
+                                   !.fault = @ \/ (e.live /\ (e.m \in {"OTHER", "ERR"} \/ ~e.gen)),
                                    !.silent = FALSE]
-  IN [ m EXCEPT !.conns[c] = cn2, !.call = call2, !.fly = IF @ > 0 THEN @ - 1 ELSE 0 ]
+  IN [ m EXCEPT !.conns[c] = cn2, !.call = call2, !.fly = IF @ > 0 THEN @ - 1 ELSE 0,
+                !.devfault = @ \/ (e.live /\ (e.m \in {"OTHER", "ERR"} \/ ~e.gen)) ]
 
 OnLost(m, e) ==
   [ m EXCEPT !.fly = IF @ > 0 THEN @ - 1 ELSE 0,
@@ -220,9 +223,14 @@ OnRet(m, e) ==
       (* a refused / unreachable / hanging connect is a failed exchange like any other: it is reported as a protocol error (or timeout), whatever the OS calls it *)
       b16 == IF cl.connfail /\ ~ok /\ e.r \notin AllowedOutcomes
                THEN {<<"C08", "a failed connect surfaced as something other than a protocol error or timeout">>} ELSE {}
+      b16b == IF cl.fault /\ ~cl.connfail /\ ~ok /\ e.r \notin AllowedOutcomes
+               THEN {<<"C08", "an exchange hit by a fault (peer close, error packet, garbage) surfaced as something other than a protocol error, authentication error or timeout">>} ELSE {}
+      (* the handshake a send performs on its own went unanswered: it is retransmitted like any request and ends in a timeout when its budget is used up *)
+      b17 == IF cl.op = "send" /\ cl.silent /\ cl.tx = 0 /\ cl.hs > 0 /\ ~cl.cancelled /\ (cl.hs # HSRetries \/ e.r # "timeout")
+               THEN {<<"C08", "unanswered handshake of a send did not end in a timeout after exactly the handshake retry budget">>} ELSE {}
       b13 == IF cl.op = "auth" /\ cl.genuine /\ cl.canSucceed /\ ~ok /\ e.r # "cancelled"
                THEN {<<"C06", "authentication failed although the device's reply proved knowledge of the key">>} ELSE {}
-  IN [ m EXCEPT !.bad = @ \cup b1 \cup b2 \cup b3 \cup b4 \cup b5 \cup b5b \cup b6 \cup b7 \cup b8 \cup b9 \cup b10 \cup b11 \cup b12 \cup b13 \cup b14 \cup b15 \cup b16,
+  IN [ m EXCEPT !.bad = @ \cup b1 \cup b2 \cup b3 \cup b4 \cup b5 \cup b5b \cup b6 \cup b7 \cup b8 \cup b9 \cup b10 \cup b11 \cup b12 \cup b13 \cup b14 \cup b15 \cup b16 \cup b16b \cup b17,
                 !.call = NoCall, !.stored = e.stored, !.prevFailed = ~ok,
                 !.hadGood = @ \/ e.stored = "good",
                 !.conns = [c \in 1..Len(m.conns) |-> IF c = m.cur /\ e.r = "frames" THEN [m.conns[c] EXCEPT !.stray = 0, !.straybad = 0] ELSE m.conns[c]] ]
@@ -231,7 +239,7 @@ OnRet(m, e) ==
 (* e.raised = it raised; e.online = the device's online flag; e.frames = frames its exchanges returned *)
 OnDevRet(m, e) ==
   LET b1 == IF e.raised THEN {<<"C09", "device-level operation raised instead of reporting an unresponsive device">>} ELSE {}
-      b0 == IF e.raised /\ m.devfault THEN {<<"C08", "device-level operation raised after a failed connect instead of reporting no response / offline">>} ELSE {}
+      b0 == IF e.raised /\ m.devfault THEN {<<"C08", "device-level operation raised after a fault (failed connect, peer close, error packet, garbage) instead of reporting no response / offline">>} ELSE {}
       b2 == IF ~e.raised /\ e.frames = 0 /\ e.online THEN {<<"C08", "device reported online although no exchange returned a response">>} ELSE {}
       b3 == IF ~e.raised /\ e.frames > 0 /\ ~e.online THEN {<<"C08", "device reported offline although a response was returned">>} ELSE {}
   IN [m EXCEPT !.bad = @ \cup b0 \cup b1 \cup b2 \cup b3, !.devfault = FALSE]
